@@ -26,7 +26,12 @@ type SimReader struct {
 	EOFWithData bool
 	// ErrAt >= 0: after ErrAt bytes have been delivered every Read fails with ErrInjectedRead.
 	ErrAt int
-	pos   int
+	// ErrStyle (with ErrAt >= 0): 0 = the error comes alone, with no byte, and stays; 1 = the
+	// error comes in the same Read as the last bytes before ErrAt (io.Reader allows n > 0 with
+	// err != nil) and stays; 2 = as 1, but the error is reported once: later Reads answer
+	// (0, io.EOF), as a reader that forgets its error does (bufio.Reader does).
+	ErrStyle int
+	pos      int
 	Reads int
 	Short int
 	Fired bool
@@ -51,6 +56,9 @@ func (r *SimReader) Read(p []byte) (int, error) {
 	remain := limit - r.pos
 	if remain <= 0 {
 		if r.ErrAt >= 0 && r.pos >= r.ErrAt {
+			if r.ErrStyle == 2 && r.Fired {
+				return 0, io.EOF
+			}
 			r.Fired = true
 			return 0, ErrInjectedRead
 		}
@@ -83,6 +91,10 @@ func (r *SimReader) Read(p []byte) (int, error) {
 	r.pos += n
 	if r.EOFWithData && r.pos == len(r.Data) && r.ErrAt < 0 {
 		return n, io.EOF
+	}
+	if r.ErrStyle > 0 && r.ErrAt >= 0 && r.pos >= r.ErrAt {
+		r.Fired = true
+		return n, ErrInjectedRead
 	}
 	return n, nil
 }
